@@ -54,7 +54,8 @@ void callcb(void (*)());
 static void guest_callcb(Sbx::T_PointerType cb) { Sbx::guest_call_callback<void>(cb); }
 void callslot(unsigned);
 static void guest_callslot(uint32_t slot) { Sbx::guest_call_callback<void>(Sbx::CB_BASE + slot); }
-static const rlbox::verif_lib g_lib = { { "f5", nullptr }, { "f6", nullptr }, { "f7", nullptr } };
+static const rlbox::verif_lib g_lib = { { "f5", (void*)0x1005 }, { "f6", (void*)0x1006 }, { "f7", (void*)0x1007 } };
+static char g_namebuf[8];   // a caller-owned name buffer that is reused for every by-name lookup ("lb"/"ilb")
 #endif
 
 static std::string run_case(const toks_t& t)
@@ -106,7 +107,7 @@ static std::string run_case(const toks_t& t)
 #endif
         } else if (c == "go" && (owners[std::stoi(o[1])].is_unregistered() || !created[own_sb[std::stoi(o[1])]])) {
           out += owners[std::stoi(o[1])].is_unregistered() ? "go=dead" : "go=notcreated";
-        } else if ((c == "l" || c == "il" || c == "gs") && !created[std::stoi(o[1])]) {
+        } else if ((c == "l" || c == "il" || c == "gs" || c == "lb" || c == "ilb") && !created[std::stoi(o[1])]) {
           // invoking / looking up on a sandbox that is not created is outside the API contract: not exercised
           out += c + "=notcreated";
         } else if (c == "l" || c == "il") {
@@ -119,6 +120,18 @@ static std::string run_case(const toks_t& t)
           std::string name = "f" + o[2];
           if (c == "l") sb[i]->lookup_symbol(name.c_str()); else sb[i]->internal_lookup_symbol(name.c_str());
           out += c + "=" + (impl->lookups > before ? "asked" : "cached");
+#endif
+        } else if (c == "lb" || c == "ilb") {
+#ifdef LIFE_NOOP
+          out += c + "=skip";
+#else
+          // the symbol name is built at run time in a buffer the caller reuses for the next lookup
+          int i = std::stoi(o[1]);
+          auto impl = sb[i]->get_sandbox_impl();
+          int before = impl->lookups;
+          std::snprintf(g_namebuf, sizeof(g_namebuf), "f%s", o[2].c_str());
+          void* a = (c == "lb") ? sb[i]->lookup_symbol(g_namebuf) : sb[i]->internal_lookup_symbol(g_namebuf);
+          out += c + "=" + (impl->lookups > before ? "asked" : "cached") + ":" + std::to_string(reinterpret_cast<uintptr_t>(a) - 0x1000);
 #endif
         } else if (c == "r") {
           int j = std::stoi(o[1]), i = std::stoi(o[2]), k = std::stoi(o[3]);
